@@ -134,7 +134,7 @@ func (Engine) Generate(r *simcore.RNG, tier string, idx int) *simcore.Plan {
 		if r.Chance(0.15) {
 			a0 = amountArg(r, r.Intn(3))
 		}
-		switch r.Weighted([]int{20, 5, 10, 30, 6, 6, 3, 4, 12, 2, 1, 4}) {
+		switch r.Weighted([]int{20, 5, 10, 30, 6, 6, 3, 4, 12, 2, 1, 4, 2}) {
 		case 0:
 			st.Op = "pos"
 			st.A = []int64{r.Range(0, 4), r.Range(0, 2), r.Range(0, 7), r.Range(0, 40), r.Range(1, 40), a0[0], a0[1], a1[0], a1[1], int64(r.Intn(4))}
@@ -172,6 +172,10 @@ func (Engine) Generate(r *simcore.RNG, tier string, idx int) *simcore.Plan {
 		case 10:
 			st.Op = "pool"
 			st.A = []int64{r.Range(0, 4), r.Range(0, 2), r.Range(0, 3), r.Range(0, 8)}
+		case 12:
+			// governance narrows a pool's tick spacing (the authority-only door): later positions sit on finer ticks
+			st.Op = "tspace"
+			st.A = []int64{r.Range(0, 2), r.Range(0, 3)}
 		case 11:
 			// two positions sharing a boundary tick end up with exactly equal liquidity: the tick's net liquidity is 0 while its gross is not
 			p.Steps = append(p.Steps, simcore.Step{Op: "pos", A: []int64{r.Range(0, 4), r.Range(0, 2), 6, r.Range(0, 40), r.Range(1, 40), a0[0], a0[1], a1[0], a1[1], 1}})
